@@ -198,6 +198,8 @@ func runC12(c *Checker) {
 	ruleHandshakeCtx(c)
 	ruleCtorCleanup(c)
 	ruleListenerClose(c)
+	ruleSyncerQuit(c)
+	ruleCtxAfterCancel(c, "ORDER")
 	w := c.w
 	gclose := w.Func("(*gbn.GoBackNConn).Close")
 	conn := w.Named("gbn.GoBackNConn")
